@@ -399,7 +399,7 @@ var clauseKeywords = map[string]bool{
 	"property": true, "model": true, "requires": true, "ensures": true, "loop": true,
 	"inline": true, "trusted": true, "safety": true, "pure": true, "assigns": true,
 	"let": true, "note": true, "method": true, "body": true, "use": true, "opt": true,
-	"assert": true, "purearg": true, "oncall": true, "inlinecall": true, "useall": true,
+	"assert": true, "purearg": true, "olet": true, "oncall": true, "inlinecall": true, "useall": true,
 }
 
 // ParseContractFile reads one verif_contracts.go file.
@@ -655,6 +655,18 @@ func (cs *ContractSet) addClause(c *FuncContract, kw, text, file string, line in
 			return err
 		}
 		c.Lets = append(c.Lets, &Clause{Kind: "let", Label: strings.TrimSpace(text[:i]), Text: text, E: e, File: file, Line: line})
+	case "olet":
+		// opaque let: a fresh constant constrained to equal the expression (keeps
+		// nonlinear definitions out of quantifier bounds)
+		i := strings.Index(text, "=")
+		if i < 0 {
+			return fmt.Errorf("olet needs name = expr")
+		}
+		e, err := ParseExpr(strings.TrimSpace(text[i+1:]))
+		if err != nil {
+			return err
+		}
+		c.Lets = append(c.Lets, &Clause{Kind: "olet", Label: strings.TrimSpace(text[:i]), Text: text, E: e, File: file, Line: line})
 	case "loop":
 		fs := strings.Fields(text)
 		if len(fs) < 2 {
